@@ -22,9 +22,10 @@ Context (Hlay : forall p, In p pkts -> layout_rp (hdr p) (p_payload p)).
 Context (Hknown : forall p r, pkts = p :: r -> known_sysid (r_system_id (hdr p)) = true).
 (* the same check configuration, validators per link id; run 1 unfiltered, run 2 with --filter-link id; payload handling alike *)
 Context (Hcheck : rc_check c2 = rc_check c1).
-Context (Hdisp : forall p, disp_id (rc_check c1) p = r_link_id (c_rdh p)).
 Context (Hf1 : sc_filter (rc_scan c1) = None).
-Context (Hf2 : sc_filter (rc_scan c2) = Some (F_link id)).
+(* the filter of the second run selects exactly the packets of the dispatch unit `id` of the first *)
+Context (Hkey : forall r, matches_opt (sc_filter (rc_scan c2)) r = (disp_id (rc_check c1) {| c_rdh := r; c_payload := []; c_off := 0 |} =? id)).
+Context (Hdisp_rdh : forall p q, c_rdh p = c_rdh q -> disp_id (rc_check c1) p = disp_id (rc_check c1) q).
 Context (Hskip : sc_skip (rc_scan c2) = sc_skip (rc_scan c1)).
 
 Let vc := rc_check c1.
@@ -36,10 +37,10 @@ Proof. unfold mk_cdp. rewrite Hskip. reflexivity. Qed.
 
 Lemma filtered_is_unit : cdps2 = sel vc id cdps1.
 Proof.
-  unfold cdps2, cdps1, sel, selected, pmatch. rewrite Hf1, Hf2. cbn [matches_opt matches].
+  unfold cdps2, cdps1, sel, selected, pmatch. rewrite Hf1. cbn [matches_opt].
   rewrite filter_map_comm, (map_ext _ _ mk_same). f_equal.
   rewrite (filter_all (fun _ => true)) by reflexivity.
-  apply filter_ext. intros op. unfold vc. rewrite Hdisp. reflexivity.
+  apply filter_ext. intros op. unfold vc. rewrite Hkey. rewrite (Hdisp_rdh {| c_rdh := decode_rdh (p_hdr (snd op)); c_payload := []; c_off := 0 |} (mk_cdp (rc_scan c1) op) eq_refl). reflexivity.
 Qed.
 
 Lemma unit_of_filtered : sel vc id cdps2 = cdps2.
@@ -74,3 +75,39 @@ Proof.
   apply in_unitb_true. exists q. split; [exact Hq|apply start_inside, Sq].
 Qed.
 End FilterEquiv.
+
+(* the three instances: validators per link id with --filter-link; validators per FEE id (`check all its-stave`) with --filter-fee *)
+Lemma disp_rdh_only vc p q : c_rdh p = c_rdh q -> disp_id vc p = disp_id vc q.
+Proof. intros E. unfold disp_id. rewrite E. reflexivity. Qed.
+
+Theorem c06_filter_equiv_link c1 c2 pkts id : Gen.Facts.cdp_offset_sampled_after = true -> Gen.Facts.error_sort_when_muted = true ->
+  Forall wf_pkt pkts -> N.of_nat (length pkts) < U32_MAX -> pay_all pkts < U32_MAX ->
+  (forall p, In p pkts -> layout_rp (hdr p) (p_payload p)) ->
+  (forall p r, pkts = p :: r -> known_sysid (r_system_id (hdr p)) = true) ->
+  rc_check c2 = rc_check c1 -> (forall p, disp_id (rc_check c1) p = r_link_id (c_rdh p)) ->
+  sc_filter (rc_scan c1) = None -> sc_filter (rc_scan c2) = Some (F_link id) -> sc_skip (rc_scan c2) = sc_skip (rc_scan c1) ->
+  forall ff s1 sh1 e1 s2 sh2 e2,
+  sel (rc_check c1) id (map (mk_cdp (rc_scan c1)) (selected (rc_scan c1) 0 pkts)) <> [] ->
+  run_check ff c1 (serialize pkts) = R_done s1 sh1 e1 -> run_check ff c2 (serialize pkts) = R_done s2 sh2 e2 ->
+  filter (fun m => in_unitb (sel (rc_check c1) id (map (mk_cdp (rc_scan c1)) (selected (rc_scan c1) 0 pkts))) (m_off m)) (k_errors s1) = k_errors s2.
+Proof.
+  intros Hoff Hsort Hwf Hn Hpay Hlay Hknown Hcheck Hdisp Hf1 Hf2 Hskip.
+  apply (c06_filter_equiv c1 c2 pkts id Hoff Hsort Hwf Hn Hpay Hlay Hknown Hcheck Hf1); [|apply disp_rdh_only|exact Hskip].
+  intros r. rewrite Hf2, Hdisp. reflexivity.
+Qed.
+
+Theorem c06_filter_equiv_fee c1 c2 pkts id : Gen.Facts.cdp_offset_sampled_after = true -> Gen.Facts.error_sort_when_muted = true ->
+  Forall wf_pkt pkts -> N.of_nat (length pkts) < U32_MAX -> pay_all pkts < U32_MAX ->
+  (forall p, In p pkts -> layout_rp (hdr p) (p_payload p)) ->
+  (forall p r, pkts = p :: r -> known_sysid (r_system_id (hdr p)) = true) ->
+  rc_check c2 = rc_check c1 -> (forall p, disp_id (rc_check c1) p = r_fee_id (c_rdh p)) ->
+  sc_filter (rc_scan c1) = None -> sc_filter (rc_scan c2) = Some (F_fee id) -> sc_skip (rc_scan c2) = sc_skip (rc_scan c1) ->
+  forall ff s1 sh1 e1 s2 sh2 e2,
+  sel (rc_check c1) id (map (mk_cdp (rc_scan c1)) (selected (rc_scan c1) 0 pkts)) <> [] ->
+  run_check ff c1 (serialize pkts) = R_done s1 sh1 e1 -> run_check ff c2 (serialize pkts) = R_done s2 sh2 e2 ->
+  filter (fun m => in_unitb (sel (rc_check c1) id (map (mk_cdp (rc_scan c1)) (selected (rc_scan c1) 0 pkts))) (m_off m)) (k_errors s1) = k_errors s2.
+Proof.
+  intros Hoff Hsort Hwf Hn Hpay Hlay Hknown Hcheck Hdisp Hf1 Hf2 Hskip.
+  apply (c06_filter_equiv c1 c2 pkts id Hoff Hsort Hwf Hn Hpay Hlay Hknown Hcheck Hf1); [|apply disp_rdh_only|exact Hskip].
+  intros r. rewrite Hf2, Hdisp. reflexivity.
+Qed.
